@@ -20,7 +20,7 @@ func init() {
 	register("C19", "exploration", runC19, replayC19)
 }
 
-var preKinds = []string{"#include <a.h>", "#include <b.h>\nvoid f() {}\n", "// #cgo LDFLAGS: -lm", "/* #include <c.h> */"}
+var preKinds = []string{"#include <a.h>", "#include <b.h>\nvoid f() {}\n", "// #cgo LDFLAGS: -lm", "/* #include <c.h> */", "#include <d.h>\n"}
 
 type cgoCase struct {
 	QualC     bool `json:"qual_c"`
@@ -35,7 +35,7 @@ type cgoCase struct {
 }
 
 const (
-	cgoOthers = 8
+	cgoOthers = 10
 	cgoHints  = 5
 )
 
@@ -125,6 +125,11 @@ func (cc cgoCase) build() *jen.File {
 		f.ImportAlias("x.y/z", "C")
 		f.ImportName("x.y/w", "C")
 		body = append(body, jen.Qual("x.y/z", "F").Call(), jen.Qual("x.y/w", "F").Call())
+	case 8: // paths that sort before "C": digits, upper case, punctuation
+		body = append(body, jen.Qual("9fans.net/go/acme", "F").Call(), jen.Qual("B.c/d", "F").Call())
+	case 9:
+		f.Anon("./rel", "4d63.com/tz")
+		body = append(body, jen.Qual("A/b", "F").Call())
 	case 7:
 		for i := 0; i < 12; i++ {
 			body = append(body, jen.Qual(fmt.Sprintf("m.n/p%d", i), "F").Call())
@@ -275,7 +280,7 @@ func c19Case(r *mon.Run, cc cgoCase, c mon.Case) {
 
 func runC19(r *mon.Run) {
 	dom := cgoDomain()
-	r.SetRule(fmt.Sprintf("matrix {Qual C, Anon C (before/after the preambles)} x 16 subsets of 4 preamble kinds (one-line, multi-line, raw //, raw /* */) in 2 orders x 8 other-import shapes (none, one std, several, aliased, anonymous, bases c/C, hints that ask for the name C, 14 imports) x prefix x 5 hint kinds naming \"C\" (none, ImportName, ImportAlias, dot, ImportNames) = %d combinations, each rendered formatted and NoFormat; enumerated completely in both tiers. non-trivial = the combination involves \"C\" at all", len(dom)))
+	r.SetRule(fmt.Sprintf("matrix {Qual C, Anon C (before/after the preambles)} x 32 subsets of 5 preamble kinds (one-line, multi-line, raw //, raw /* */, one line with a trailing newline) in 2 orders x 10 other-import shapes (none, one std, several, aliased, anonymous, bases c/C, hints that ask for the name C, 14 imports, paths that sort before \"C\") x prefix x 5 hint kinds naming \"C\" (none, ImportName, ImportAlias, dot, ImportNames) = %d combinations, each rendered formatted and NoFormat; enumerated completely in both tiers. non-trivial = the combination involves \"C\" at all", len(dom)))
 	c19NegControls(r)
 	r.SetExhaustive(true)
 	mon.Parallel(len(dom), func(i int) { c19Case(r, dom[i], mon.Case{Gen: "matrix", Seed: r.Seed, Index: int64(i)}) })
